@@ -20,7 +20,9 @@ import (
 	"strconv"
 	"sync/atomic"
 
+	"github.com/kubewharf/apiserver-runtime/pkg/server"
 	metav1 "k8s.io/apimachinery/pkg/apis/meta/v1"
+	"k8s.io/apimachinery/pkg/util/sets"
 	"k8s.io/apiserver/pkg/authentication/user"
 	genericapirequest "k8s.io/apiserver/pkg/endpoints/request"
 
@@ -39,9 +41,10 @@ type lookupObs struct {
 }
 
 type dispStep struct {
-	Reached bool      `json:"reached"`
-	Status  int       `json:"status"`
-	Lk      lookupObs `json:"lk"`
+	LongRunning bool      `json:"longrunning"`
+	Reached     bool      `json:"reached"`
+	Status      int       `json:"status"`
+	Lk          lookupObs `json:"lk"`
 }
 
 var qbRe = regexp.MustCompile(`qps=(\d+),burst=(\d+)`)
@@ -111,6 +114,38 @@ func runUlim(c c06Case) interface{} {
 	return map[string]interface{}{"steps": steps}
 }
 
+var reqInfoFactory = &genericapirequest.RequestInfoFactory{
+	APIPrefixes:          sets.NewString("api", "apis"),
+	GrouplessAPIPrefixes: sets.NewString("api"),
+}
+
+// requestOfKind: one request of every kind the dispatcher sees under a policy; the last four are what
+// the server's long-running check (watch/proxy verbs; attach, exec, proxy, log, portforward) flags.
+func requestOfKind(kind string) (string, string) {
+	const pods = "/api/v1/namespaces/default/pods"
+	switch kind {
+	case "", "list":
+		return "GET", pods
+	case "get":
+		return "GET", pods + "/p"
+	case "create":
+		return "POST", pods
+	case "update":
+		return "PUT", pods + "/p"
+	case "delete":
+		return "DELETE", pods + "/p"
+	case "watch":
+		return "GET", pods + "?watch=true"
+	case "log":
+		return "GET", pods + "/p/log"
+	case "exec":
+		return "POST", pods + "/p/exec?command=ls"
+	case "proxy":
+		return "GET", pods + "/p/proxy/healthz"
+	}
+	panic("unknown request kind " + kind)
+}
+
 func runDisp(c c06Case) interface{} {
 	virtualClock(true)
 	defer virtualClock(false)
@@ -133,7 +168,8 @@ func runDisp(c c06Case) interface{} {
 					Strategy:              proxyv1alpha1.RoundRobin,
 					FlowControlSchemaName: "tb",
 					Rules: []proxyv1alpha1.DispatchPolicyRule{{
-						Verbs: []string{"*"}, APIGroups: []string{"*"}, Resources: []string{"*"},
+						Verbs: []string{"*"}, APIGroups: []string{"*"},
+						Resources: []string{"*", "*/log", "*/exec", "*/proxy", "*/attach", "*/portforward", "*/status"},
 					}},
 				}},
 			},
@@ -157,16 +193,20 @@ func runDisp(c c06Case) interface{} {
 		switch op.Op {
 		case "try":
 			atomic.StoreInt64(&vnow, op.T)
-			req := httptest.NewRequest("GET", "http://"+host+"/api/v1/namespaces/default/pods", nil)
+			method, path := requestOfKind(op.Kind)
+			req := httptest.NewRequest(method, "http://"+host+path, nil)
+			// the context the gateway's filter chain builds: user, RequestInfo (the server's resolver),
+			// ExtraRequestInfo with the server's long-running check, ProxyInfo
+			ri, err := reqInfoFactory.NewRequestInfo(req)
+			must(err)
 			ctx := genericapirequest.WithUser(req.Context(), &user.DefaultInfo{Name: "u", Groups: []string{"system:authenticated"}})
-			ctx = genericapirequest.WithRequestInfo(ctx, &genericapirequest.RequestInfo{
-				IsResourceRequest: true, Path: "/api/v1/namespaces/default/pods", Verb: "list",
-				APIPrefix: "api", APIVersion: "v1", Namespace: "default", Resource: "pods",
-				Parts: []string{"pods"},
-			})
-			ctx = request.WithExtraRequestInfo(ctx, &request.ExtraRequestInfo{
-				Scheme: "http", Hostname: host, UpstreamCluster: info, IsProxyRequest: true,
-			})
+			ctx = genericapirequest.WithRequestInfo(ctx, ri)
+			extra, err := (&request.ExtraRequestInfoFactory{LongRunningFunc: server.DefaultLongRunningFunc}).NewExtraRequestInfo(req.WithContext(ctx))
+			must(err)
+			extra.IsProxyRequest = true
+			extra.UpstreamCluster = info
+			st.LongRunning = extra.IsLongRunningRequest
+			ctx = request.WithExtraRequestInfo(ctx, extra)
 			ctx = request.WithProxyInfo(ctx, request.NewProxyInfo())
 			rec := httptest.NewRecorder()
 			before := atomic.LoadInt64(&hits)
